@@ -114,9 +114,16 @@ func runDump(w *World, args []string) {
 				seen[k] = true
 				n++
 				for _, nd := range s.Needs {
-					if ok, _ := Prove(nd.A, nd.B, s.Facts); !ok {
+					if !w.ProveX(nd.A, nd.B, s.Facts) {
 						bad++
 						lines = append(lines, fmt.Sprintf("      OPEN %s %s %s: %v <= %v", w.Pos(s.Pos), s.Kind, s.Text, nd.A, nd.B))
+						if len(args) > 2 {
+							for _, f := range s.Facts {
+								if !badHyps[f.Src] {
+									lines = append(lines, fmt.Sprintf("           fact %s   [%s] cond=%q", f.String(), f.Src, f.Cond))
+								}
+							}
+						}
 						break
 					}
 				}
@@ -128,7 +135,10 @@ func runDump(w *World, args []string) {
 				fmt.Println(l)
 			}
 			for _, l := range fs.Loops {
-				fmt.Printf("      loop %s %s cond=%s bounded=%q\n", w.Pos(l.Pos), l.Kind, l.Cond, l.Bounded)
+				fmt.Printf("      loop %s %s cond=%s bounded=%q back=%d\n", w.Pos(l.Pos), l.Kind, l.Cond, l.Bounded, l.NBack)
+				for _, cp := range l.Prog {
+					fmt.Printf("         cursor %s strict=%v bound=%q %s\n", cp.Var, cp.Strict, cp.Bound, cp.MinWhy)
+				}
 			}
 			for _, nt := range fs.Notes {
 				fmt.Printf("      note %s %s\n", w.Pos(nt.Pos), nt.Text)
